@@ -870,6 +870,19 @@ pub fn walk_node_for_targets(targets: &HashSet<Target>, node: Node) -> Vec<Node>
                 matches.append(&mut walk_node_for_targets(targets, box_expression.into()));
             }
 
+            pt::Expression::PreIncrement(_, box_expression) => {
+                matches.append(&mut walk_node_for_targets(targets, box_expression.into()));
+            }
+
+            pt::Expression::PreDecrement(_, box_expression) => {
+                matches.append(&mut walk_node_for_targets(targets, box_expression.into()));
+            }
+
+            pt::Expression::Power(_, box_expression, box_expression_1) => {
+                matches.append(&mut walk_node_for_targets(targets, box_expression.into()));
+                matches.append(&mut walk_node_for_targets(targets, box_expression_1.into()));
+            }
+
             pt::Expression::PostIncrement(_, box_expression) => {
                 matches.append(&mut walk_node_for_targets(targets, box_expression.into()));
             }
